@@ -78,6 +78,11 @@ def parse_harnesses():
                 continue
             path = os.path.join(d, fn)
             lines = open(path).read().splitlines()
+            stem = fn[:-3]
+            for l in lines[:5]:
+                mm = re.match(r"\s*// @in-module (\w+)", l)
+                if mm:
+                    stem = mm.group(1)  # an include!()d fragment of that module
             i = 0
             while i < len(lines):
                 m = re.match(r"\s*// @harness\s+(.*)$", lines[i])
@@ -103,7 +108,7 @@ def parse_harnesses():
                         j += 1
                     if name is None:
                         raise SystemExit(f"annotation without fn at {path}:{i+1}")
-                    out.append(Harness(name, path, attrs, subdir, fn[:-3], " ".join(doc).strip()))
+                    out.append(Harness(name, path, attrs, subdir, stem, " ".join(doc).strip()))
                 i += 1
     names = [h.name for h in out]
     dup = {n for n in names if names.count(n) > 1}
@@ -261,6 +266,10 @@ def parse_kani_log(text):
             r["cbmc_crash"] = int(m.group(1))
         if l.startswith("CBMC timed out"):
             r["cbmc_crash"] = -1
+        if l.startswith("CBMC failed") and r["cbmc_crash"] is None:
+            r["cbmc_crash"] = 0
+        if "appears to have run out of memory" in l or "Solver ran out of memory" in l:
+            r["cbmc_crash"] = 137
         m = RE_FAILED.match(l)
         if m:
             loc = lines[i + 1].strip() if i + 1 < len(lines) else ""
@@ -336,7 +345,7 @@ def kani_cmd(h, target_dir, playback):
     """phase 1: terse output (kani-driver's 'regular' post-processing of ~10k checks costs ~100 s);
     phase 2 (only after a failure): the same query with concrete playback printed"""
     cmd = ["cargo", "kani", "--harness", h.fullpath, "--exact", "-Z", "stubbing",
-           "--target-dir", target_dir, "--output-format", "terse"]
+           "--target-dir", target_dir, "--output-format", os.environ.get("VERIF_FORMAT", "terse")]
     if playback:
         cmd += ["-Z", "concrete-playback", "--concrete-playback=print"]
     cmd += [x for x in h.attrs.get("flags", "").split(",") if x]
